@@ -966,12 +966,14 @@ class _FunctionInformationCollector(ast.RopeNodeVisitor):
 
     @contextmanager
     def _handle_conditional_context(self, node):
+        # leaving a nested conditional must not end the enclosing one
+        previous = self.conditional
         if self.start <= node.lineno <= self.end:
             self.conditional = True
         try:
             yield
         finally:
-            self.conditional = False
+            self.conditional = previous
 
     @contextmanager
     def _handle_loop_context(self, node):
